@@ -13,39 +13,78 @@ import (
 	"sort"
 	"strings"
 	"sync"
+	"sync/atomic"
 	"time"
 
 	. "verif/harness/hlib"
 
 	"github.com/open2b/scriggo"
+	"github.com/open2b/scriggo/native"
 )
 
 type runner func(ctx context.Context) error
 
-// buildRunner compiles src as a program (flavour 0) or as a template (flavour 1).
-func buildRunner(src string, flavour int) (runner, error) {
+// cancelNatives are the native helpers of the cancellation programs: they call
+// back into Scriggo code. abort stops their loops when the harness gives up on
+// a case (so that a VM that misses the cancellation does not spin for ever).
+func cancelNatives(abort *atomic.Bool) native.Declarations {
+	return native.Declarations{
+		// Until calls f until it returns true.
+		"Until": func(f func() bool) {
+			for !f() {
+				if abort.Load() {
+					return
+				}
+			}
+		},
+		// Retry calls f(0), f(1), ... until the result is not zero.
+		"Retry": func(f func(int) int) int {
+			for i := 0; ; i++ {
+				if v := f(i); v != 0 || abort.Load() {
+					return v
+				}
+			}
+		},
+		// Each calls f(0) ... f(n-1).
+		"Each": func(n int, f func(int)) {
+			for i := 0; i < n; i++ {
+				f(i)
+			}
+		},
+	}
+}
+
+// buildRunner compiles src as a program (flavour 0) or as a template (flavour
+// 1). In src, @H@ stands for the access to the native helpers (package h in
+// programs, globals in templates). stop ends the native loops.
+func buildRunner(src string, flavour int) (r runner, stop func(), err error) {
+	abort := &atomic.Bool{}
+	stop = func() { abort.Store(true) }
 	if flavour == 0 {
-		prog, err := scriggo.Build(scriggo.Files{"main.go": []byte("package main\n\nfunc main() {\n" + src + "}\n")}, &scriggo.BuildOptions{AllowGoStmt: true})
+		src = strings.ReplaceAll(src, "@H@", "h.")
+		prog, err := scriggo.Build(scriggo.Files{"main.go": []byte("package main\n\nimport \"h\"\n\nvar _ = h.Until\n\nfunc main() {\n" + src + "}\n")},
+			&scriggo.BuildOptions{AllowGoStmt: true, Packages: native.Packages{"h": native.Package{Name: "h", Declarations: cancelNatives(abort)}}})
 		if err != nil {
-			return nil, err
+			return nil, stop, err
 		}
 		return func(ctx context.Context) error {
 			if ctx == nil {
 				return prog.Run(nil)
 			}
 			return prog.Run(&scriggo.RunOptions{Context: ctx})
-		}, nil
+		}, stop, nil
 	}
-	tmpl, err := scriggo.BuildTemplate(scriggo.Files{"index.txt": []byte("{%%\n" + src + "%%}\n")}, "index.txt", &scriggo.BuildOptions{AllowGoStmt: true})
+	src = strings.ReplaceAll(src, "@H@", "")
+	tmpl, err := scriggo.BuildTemplate(scriggo.Files{"index.txt": []byte("{%%\n" + src + "%%}\n")}, "index.txt", &scriggo.BuildOptions{AllowGoStmt: true, Globals: cancelNatives(abort)})
 	if err != nil {
-		return nil, err
+		return nil, stop, err
 	}
 	return func(ctx context.Context) error {
 		if ctx == nil {
 			return tmpl.Run(io.Discard, nil, nil)
 		}
 		return tmpl.Run(io.Discard, nil, &scriggo.RunOptions{Context: ctx})
-	}, nil
+	}, stop, nil
 }
 
 // scenarioSource: one blocking instruction, ready or not, then the end.
@@ -141,7 +180,9 @@ type cancelCase struct {
 
 func genBlocker(r *rand.Rand, ends bool) (decl, stmt, name string) {
 	if ends {
-		switch r.Intn(5) {
+		switch r.Intn(6) {
+		case 5:
+			return "\tkk := 0\n", "@H@Each(50, func(i int) {\n\t\tkk += i\n\t})", "native-each-callback"
 		case 0:
 			return "\tc1 := make(chan int, 1)\n\tc1 <- 1\n", "<-c1", "recv-ready"
 		case 1:
@@ -154,7 +195,17 @@ func genBlocker(r *rand.Rand, ends bool) (decl, stmt, name string) {
 			return "", "for k := 0; k < 2000; k++ {\n\t\t_ = k\n\t}", "bounded-loop"
 		}
 	}
-	switch r.Intn(9) {
+	switch r.Intn(13) {
+	case 9:
+		// native code that keeps calling back a Scriggo function
+		return "\tkk := 0\n", "@H@Until(func() bool {\n\t\tkk++\n\t\treturn kk < 0\n\t})", "native-until-callback"
+	case 10:
+		return "", "_ = @H@Retry(func(i int) int {\n\t\treturn 0\n\t})", "native-retry-callback"
+	case 11:
+		// a long computation made only of range loops with short bodies (3000^3 iterations)
+		return "\tbig := make([]int, 3000)\n\tcnt := 0\n", "for range big {\n\t\tfor range big {\n\t\t\tfor range big {\n\t\t\t\tcnt++\n\t\t\t}\n\t\t}\n\t}", "range-only-slices"
+	case 12:
+		return "\tstr := \"\"\n\tfor i := 0; i < 1500; i++ {\n\t\tstr += \"a\"\n\t}\n\tmp := map[int]int{1: 1, 2: 2, 3: 3}\n\tcnt := 0\n", "for range str {\n\t\tfor range str {\n\t\t\tfor range str {\n\t\t\t\tfor range mp {\n\t\t\t\t\tcnt++\n\t\t\t\t}\n\t\t\t}\n\t\t}\n\t}", "range-only-string-map"
 	case 0:
 		return "", "for {\n\t}", "busy-empty"
 	case 1:
@@ -248,7 +299,8 @@ const latencyBound = 2 * time.Second
 
 // runCancelCase returns "" when the property holds, else the failure signature.
 func runCancelCase(cc cancelCase) (sig string, detail map[string]any, latency time.Duration) {
-	r, err := buildRunner(cc.Src, cc.Flavour)
+	r, stop, err := buildRunner(cc.Src, cc.Flavour)
+	defer stop()
 	if err != nil {
 		return "generator-build-error", map[string]any{"error": err.Error(), "case": cc}, 0
 	}
@@ -349,7 +401,7 @@ func registerCancel() {
 			go func(j *job) {
 				defer wg.Done()
 				defer func() { <-sem }()
-				r, err := buildRunner(scenarioSource(j.bcode, j.busy == 1, j.ready == 1), j.flavour)
+				r, _, err := buildRunner(scenarioSource(j.bcode, j.busy == 1, j.ready == 1), j.flavour)
 				if err != nil {
 					j.res = 8
 					return
@@ -401,13 +453,23 @@ func registerCancel() {
 		out := make([]res, len(cases))
 		var wg sync.WaitGroup
 		sem := make(chan struct{}, 8)
+		var failed atomic.Int32
+		skipped := make([]bool, len(cases))
 		for i := range cases {
 			wg.Add(1)
 			sem <- struct{}{}
 			go func(i int) {
 				defer wg.Done()
 				defer func() { <-sem }()
+				if failed.Load() >= 5 {
+					// enough failing inputs: code that misses the cancellation keeps its CPU for ever
+					skipped[i] = true
+					return
+				}
 				s, d, l := runCancelCase(cases[i])
+				if s != "" {
+					failed.Add(1)
+				}
 				out[i] = res{s, d, l}
 			}(i)
 		}
@@ -415,6 +477,9 @@ func registerCancel() {
 		var lats []int
 		shapes := map[string]bool{}
 		for i, r := range out {
+			if skipped[i] {
+				continue
+			}
 			c.Count("evaluations")
 			if r.sig != "" {
 				c.Fail(r.sig, r.detail)
